@@ -31,6 +31,9 @@ type MITMCase struct {
 	Shaped bool     `json:"shaped"`
 	Host   string   `json:"host"`
 	Paths  []string `json:"paths"` // request targets (path?query), one request each on the same tunnel
+	// Hostless: the last request is HTTP/1.0 in origin form without a Host header
+	// (legal; the proxy addresses it to the tunnel's host).
+	Hostless bool `json:"hostless,omitempty"`
 }
 
 // The authority and the leaf key are key material, not case state: generating
@@ -146,7 +149,12 @@ func runMITM(c MITMCase) kit.Verdict {
 
 	var v kit.Verdict
 	for i, target := range c.Paths {
-		fmt.Fprintf(tc, "GET %s HTTP/1.1\r\nHost: %s\r\n\r\n", target, c.Host)
+		hostless := c.Hostless && i == len(c.Paths)-1
+		if hostless {
+			fmt.Fprintf(tc, "GET %s HTTP/1.0\r\n\r\n", target)
+		} else {
+			fmt.Fprintf(tc, "GET %s HTTP/1.1\r\nHost: %s\r\n\r\n", target, c.Host)
+		}
 		head, err := readHead(br)
 		if err != nil {
 			if isTimeout(err) {
@@ -167,10 +175,18 @@ func runMITM(c MITMCase) kit.Verdict {
 		}
 		s := seen[i]
 		wantURL := "https://" + c.Host + target
+		wantHost := c.Host
+		if hostless && len(s.h["X-Forwarded-Url"]) == 1 && s.h["X-Forwarded-Url"][0] == "https://"+c.Host+":443"+target {
+			// without a Host header the request is addressed to the tunnel's
+			// authority as given in CONNECT (host:443); host alone is accepted too
+			wantURL, wantHost = "https://"+c.Host+":443"+target, c.Host+":443"
+		}
 		if got := s.h["X-Forwarded-Proto"]; !equalStrings(got, []string{"https"}) || !equalStrings(s.h["X-Forwarded-Url"], []string{wantURL}) || s.url != wantURL {
 			v.Addf("C14/forwarded/mitm-tunnel-"+listener+"-listener/wrong-original-url", "request %d (%s) inside a MITM'd tunnel on a %s listener: X-Forwarded-Proto %q, X-Forwarded-Url %q, URL handed upstream %q; want https, %q", i, target, listener, got, s.h["X-Forwarded-Url"], s.url, wantURL)
 		}
-		if !equalStrings(s.h["X-Forwarded-Host"], []string{c.Host}) || !equalStrings(s.h["X-Forwarded-For"], []string{"127.0.0.1"}) {
+		if hostless && !equalStrings(s.h["X-Forwarded-Host"], []string{wantHost}) {
+			v.Addf("C14/forwarded/x-forwarded-host-absent-request-without-host/wrong-value", "HTTP/1.0 request %d without Host inside a MITM'd tunnel to %s: X-Forwarded-Host %q, X-Forwarded-Url %q; want the tunnel's host", i, c.Host, s.h["X-Forwarded-Host"], s.h["X-Forwarded-Url"])
+		} else if !equalStrings(s.h["X-Forwarded-Host"], []string{wantHost}) || !equalStrings(s.h["X-Forwarded-For"], []string{"127.0.0.1"}) {
 			v.Addf("C14/forwarded/mitm-tunnel-"+listener+"-listener/wrong-client-or-host", "request %d inside a MITM'd tunnel on a %s listener: X-Forwarded-Host %q (want %q), X-Forwarded-For %q (want 127.0.0.1)", i, listener, s.h["X-Forwarded-Host"], c.Host, s.h["X-Forwarded-For"])
 		}
 		if via := flatten(s.h["Via"]); len(via) != 1 {
@@ -191,6 +207,7 @@ var propMITM = &kit.Prop[MITMCase]{
 		for i, n := 0, rapid.IntRange(1, 3).Draw(t, "requests"); i < n; i++ {
 			c.Paths = append(c.Paths, rapid.SampledFrom([]string{"/", "/first?a=b", "/second", "/p/abc.html?x=1&y=2"}).Draw(t, "target"))
 		}
+		c.Hostless = rapid.IntRange(0, 3).Draw(t, "hostless") == 0
 		return c
 	},
 	Run:        runMITM,
@@ -204,6 +221,9 @@ var propMITM = &kit.Prop[MITMCase]{
 		}
 		if len(c.Paths) > 1 {
 			cl = append(cl, "several-requests-on-tunnel")
+		}
+		if c.Hostless {
+			cl = append(cl, "last-request-http10-without-host")
 		}
 		return cl
 	},
